@@ -83,6 +83,24 @@ def run(chk):
                       impl_fn="impl_general", oracle=oracle,
                       nontrivial=lambda c, r: r[0] == "ok" and len(c["desc"]["variants"]) >= 2,
                       normalise=lambda r: r[:2] if (isinstance(r, list) and r and r[0] == "ok") else r)
+    # floats that print in exponent form (float(time.time_ns()) = 1.7591e+18): outside the model's float tokens, so these trees
+    # go to the implementation-side oracle only
+    ecases = []
+    for c in cases[:max(20, len(cases) // 10)]:
+        e = {"desc": dict(c["desc"], tree=dict(c["desc"]["tree"], build_timestamp=rng.choice([1e16, 1.7591e+18, 3.25e22, float(2 ** 60)]))),
+             "main_variant": c["main_variant"]}
+        ecases.append(e)
+    ir = core.ImplRunner("docs_treeinfo", fn="impl_general", per_case_timeout=10.0)
+    try:
+        eres = ir.run(ecases)
+    finally:
+        ir.close()
+    for c, r in zip(ecases, eres):
+        v = oracle(c, r) if isinstance(r, list) and r else "harness: %r" % (r,)
+        if v:
+            chk.violation(v, c, "docs_treeinfo:general:exponent-floats")
+    chk.add_cases([{"exp": i, "ts": c["desc"]["tree"]["build_timestamp"]} for i, c in enumerate(ecases)], [True] * len(ecases))
+    chk.record_suite("docs_treeinfo:general:exponent-floats", {"cases": len(ecases)})
     return chk.finish(
         rule="valid trees (as in C04) with 1-4 top-level variants, every choice of main variant (and none), binary and src trees, "
              "variants with and without packages/repository paths, float and integer timestamps, extra platforms; the written text "
